@@ -6,6 +6,7 @@ CONSTANTS
   MaxIssued = 3
   Rebootstrap = FALSE
   Wipeouts = FALSE
+  Collide = FALSE
   Times = {1}
   Design = "atomic"
 SPECIFICATION Spec
